@@ -14,9 +14,13 @@
  *   VERIF_ENT_FAIL_AT=<k>    k-th getentropy call (1-based) returns -1, errno=EIO
  *   VERIF_ENT_FAIL_FROM=<k>  every getentropy call from the k-th on fails
  *   VERIF_ENT_ERRNO=<n>      errno reported by an injected failure (default 5 = EIO)
- *   VERIF_ENT_CAP=<n>        once more than n getentropy calls AND more than 16*n bytes have been requested the process
- *                            _exit(97)s (logical-step bound; the byte clause keeps the budget in candidates the same for a
- *                            tool that fetches its entropy in several small requests)
+ *   VERIF_ENT_CAP=<n>        logical-step bound: the process _exit(97)s once more than n' getentropy calls AND more than
+ *                            16*n' bytes have been requested, where n' = n while a single thread has asked for entropy and
+ *                            n' = n + VERIF_ENT_CAP_SLACK * (threads seen, at most 64) otherwise (losing workers keep asking
+ *                            between the winner's result and the process exit; the thread count is what the interposer sees,
+ *                            not what the command line says). The byte clause keeps the budget in candidates the same for a
+ *                            tool that fetches its entropy in several small requests.
+ *   VERIF_ENT_CAP_SLACK=<n>  see above (default 0)
  *   VERIF_ENT_POSTFAIL_DELAY=<usec>  after the first injected failure, the first later call of every thread sleeps that long
  *                            before it is served: entropy served after a fault then provably reaches the tool long after
  *                            the failure was reported to it (no race between a failing worker and a lucky one)
@@ -50,6 +54,7 @@ static long g_delay[256];
 static long g_delay_default = 0;
 static int g_nthreads = 0;
 static __thread int t_ord = -1;
+static long g_cap_slack = 0;
 static long g_postfail_delay = 0;
 static int g_failed = 0;          /* an injected failure has been reported */
 static __thread int t_postfail_done = 0;
@@ -100,6 +105,8 @@ static void init_locked(void) {
     if (p && atol(p) > 0) g_errno = atol(p);
     p = getenv("VERIF_ENT_CAP");
     if (p) g_cap = atol(p);
+    p = getenv("VERIF_ENT_CAP_SLACK");
+    if (p) g_cap_slack = atol(p);
     p = getenv("VERIF_ENT_POSTFAIL_DELAY");
     if (p) g_postfail_delay = atol(p);
     for (int i = 0; i < 256; i++) g_delay[i] = -1;
@@ -160,7 +167,9 @@ int getentropy(void *buffer, size_t len) {
     int mode = g_mode;
     int fail = (g_fail_at && seq == g_fail_at) || (g_fail_from && seq >= g_fail_from);
     g_bytes += len;
-    int capped = g_cap && seq > g_cap && g_bytes > 16ULL * (unsigned long long)g_cap;
+    long cap = g_cap;
+    if (g_cap && g_nthreads > 1) cap += g_cap_slack * (g_nthreads < 64 ? g_nthreads : 64);
+    int capped = g_cap && seq > cap && g_bytes > 16ULL * (unsigned long long)cap;
     if (g_failed && !fail && g_postfail_delay > 0 && !t_postfail_done) {
         t_postfail_done = 1;
         delay += g_postfail_delay;
